@@ -31,7 +31,7 @@ func Available() []byte {
 	return []byte{0x09, 0, 0, 0, 0, 's', 'w', 'a', 't', '4', 0}
 }
 
-var asciiWords = []string{"Swat4 Server", "A-Bomb Nightclub", "VIP Escort", "SWAT 4", "1.1", "TSS", "Barricaded Suspects", "x", "0", "-", "a=b", "\\back\\slash", "tab\there", " "}
+var asciiWords = []string{"mapname", "password", "hostport", "statechanged", "localport", "hostname", "gametype", "numplayers", "Swat4 Server", "A-Bomb Nightclub", "VIP Escort", "SWAT 4", "1.1", "TSS", "Barricaded Suspects", "x", "0", "-", "a=b", "\\back\\slash", "tab\there", " "}
 var utf8Words = []string{"Сервер", "日本語サーバー", "café ☕", "ÿĀ", "\U0001F600 smile", "� repl", "߿ࠀ￿"}
 var markupWords = []string{"[c=FF0000]Red[\\c]", "[b]Bold[\\b] [u]x[\\u]", "[C=00ff00][B]My [i]Server", "[c=ffffff]", "[\\c][\\b]"}
 
